@@ -277,11 +277,22 @@ Auth::Basic::Config::decode(char const *proxy_auth, const HttpRequest *request, 
         auth_user = lb;
         assert(auth_user != nullptr);
     } else {
-        /* replace the current cached password with the new one */
         Auth::Basic::User *basic_auth = dynamic_cast<Auth::Basic::User *>(auth_user.getRaw());
         assert(basic_auth);
-        basic_auth->updateCached(local_basic);
-        auth_user = basic_auth;
+        if (basic_auth->credentials() == Auth::Pending && strcmp(local_basic->passwd, basic_auth->passwd) != 0) {
+            /* A helper lookup for another password of this user is in progress. Its
+             * verdict will be applied to the cached record and to every request linked
+             * to that record, so neither change the record nor wait on it: validate
+             * these credentials on their own, un-cached user object. */
+            debugs(29, 4, "different password while a lookup is pending; not sharing the cached user '" << lb->username() << "'");
+            lb->auth_type = Auth::AUTH_BASIC;
+            lb->expiretime = current_time.tv_sec;
+            auth_user = lb;
+        } else {
+            /* replace the current cached password with the new one */
+            basic_auth->updateCached(local_basic);
+            auth_user = basic_auth;
+        }
     }
 
     /* link the request to the in-cache user */
